@@ -1,0 +1,64 @@
+// +build verif
+
+// Package vhook provides verification hook points. With the "verif" build tag
+// each hook forwards to a handler installed by the verification harness.
+package vhook
+
+import "sync/atomic"
+
+const (
+	Before = 0
+	After  = 1
+)
+
+// Handlers is the set of callbacks a harness may install. Nil members are skipped.
+type Handlers struct {
+	Point func(name string, a, b int64, s string)
+	FS    func(phase int, op string, path string, off, n int64)
+	Mem   func(op string, addr uintptr, n int)
+}
+
+var cur atomic.Value // *Handlers
+
+// Install replaces the current handlers (nil removes them).
+func Install(h *Handlers) {
+	if h == nil {
+		h = &Handlers{}
+	}
+	cur.Store(h)
+}
+
+func get() *Handlers {
+	h, _ := cur.Load().(*Handlers)
+	return h
+}
+
+func Point(name string) {
+	if h := get(); h != nil && h.Point != nil {
+		h.Point(name, 0, 0, "")
+	}
+}
+
+func PointI(name string, a, b int64) {
+	if h := get(); h != nil && h.Point != nil {
+		h.Point(name, a, b, "")
+	}
+}
+
+func PointS(name string, s string) {
+	if h := get(); h != nil && h.Point != nil {
+		h.Point(name, 0, 0, s)
+	}
+}
+
+func FS(phase int, op string, path string, off, n int64) {
+	if h := get(); h != nil && h.FS != nil {
+		h.FS(phase, op, path, off, n)
+	}
+}
+
+func Mem(op string, addr uintptr, n int) {
+	if h := get(); h != nil && h.Mem != nil {
+		h.Mem(op, addr, n)
+	}
+}
